@@ -8,6 +8,7 @@ open Drv
                "n.e.s.w:v,v,..." (shape, then all entries in C order as signed hex)
      vals   -> "sweep fwd bwd tsweep split tsplit"  untruncated contraction: step None / 1 / -1, transposed network,
                split before the last column, transposed split before the last row ("None" if not a scalar)
+     sweep  -> the first of these only
      value  -> Net.value (specification value; exponential, small sizes only)
      coset  -> coset_prob over Planar.stabilizers (2^(n-1) terms, small sizes only) *)
 let pos_of_hex s =
@@ -65,6 +66,8 @@ let dispatch = function
         [planar_sweepZ a rows cols f None; planar_sweepZ a rows cols f (Some (z_of_int 1));
          planar_sweepZ a rows cols f (Some (z_of_int (-1))); planar_tsweepZ a rows cols f;
          planar_splitZ a rows cols f (z_of_int (int_of_nat c - 1)); planar_tsplitZ a rows cols f (z_of_int (int_of_nat r - 1))])
+  | ["sweep"; rows; cols; f; pi; px; py; pz] ->
+      optz (planar_sweepZ (dist pi px py pz) (zi rows) (zi cols) (bits_of_string f) None)
   | ["value"; rows; cols; f; pi; px; py; pz] ->
       hex_of_z (planar_valueZ (dist pi px py pz) (zi rows) (zi cols) (bits_of_string f))
   | ["coset"; rows; cols; f; pi; px; py; pz] ->
